@@ -30,6 +30,9 @@ type waitScn struct {
 	d       time.Duration
 	bound   int
 	execDur time.Duration // every exec attempt takes this much virtual time
+	stop    bool          // batch: stop-on-error mode
+	stagger bool          // batch: item i's attempts take i*w/2 of virtual time (items are not in lock-step)
+	inFlow  bool          // single node: run as the only node of a flow
 }
 
 func (s waitScn) name() string {
@@ -41,7 +44,7 @@ func (s waitScn) name() string {
 	if s.cancelJ >= 0 {
 		c = fmt.Sprintf("after-attempt-%d+%v", s.cancelJ, s.d)
 	}
-	return fmt.Sprintf("wait kind=%s w=%v N=%d items=%d c=%d cancel=%s execDur=%v", k, s.w, s.n, s.items, s.c, c, s.execDur)
+	return fmt.Sprintf("wait kind=%s w=%v N=%d items=%d c=%d cancel=%s execDur=%v stop=%v stagger=%v inFlow=%v", k, s.w, s.n, s.items, s.c, c, s.execDur, s.stop, s.stagger, s.inFlow)
 }
 
 type attemptRec struct {
@@ -70,6 +73,9 @@ func (s waitScn) scenario() Scenario {
 			}
 			if s.execDur > 0 {
 				core.Sleep(s.execDur) // a slow attempt: the wait is measured from its END
+			}
+			if s.stagger && item > 0 {
+				core.Sleep(time.Duration(item) * s.w / 2)
 			}
 			fail := k < s.n && core.Choose(2) == 0 // default: fail (so that waits happen); alt: succeed
 			if k >= s.n {
@@ -123,9 +129,13 @@ func (s waitScn) scenario() Scenario {
 						return "done", nil
 					})
 			}
-			_, err = flyt.Run(ctx, node, flyt.NewSharedStore())
+			if s.inFlow {
+				err = flyt.NewFlow(flyt.NewFlow(node)).Run(ctx, flyt.NewSharedStore())
+			} else {
+				_, err = flyt.Run(ctx, node, flyt.NewSharedStore())
+			}
 		default:
-			b := flyt.NewBatchNode().WithMaxRetries(s.n).WithWait(s.w).WithBatchConcurrency(s.c).
+			b := flyt.NewBatchNode().WithMaxRetries(s.n).WithWait(s.w).WithBatchConcurrency(s.c).WithBatchErrorHandling(!s.stop).
 				WithPrepFunc(func(context.Context, *flyt.SharedStore) ([]flyt.Result, error) {
 					var it []flyt.Result
 					for i := 0; i < s.items; i++ {
@@ -341,6 +351,21 @@ func genC20(tier string) []Scenario {
 	}
 	out = append(out, waitScn{kind: -1, w: time.Millisecond, n: 2, items: 2, c: 0, cancelJ: -1, bound: 0, execDur: 2 * time.Millisecond}.scenario())
 	out = append(out, waitScn{kind: -1, w: time.Millisecond, n: 2, items: 2, c: 2, cancelJ: -1, bound: 0, execDur: 2 * time.Millisecond}.scenario())
+	// the retrying node inside (nested) flows: the context error must survive the flow boundaries
+	for _, kind := range []int{kBase, kFuncR} {
+		for _, w := range []time.Duration{time.Millisecond, time.Hour} {
+			out = append(out, waitScn{kind: kind, w: w, n: 2, cancelJ: -1, bound: 0, inFlow: true}.scenario())
+			out = append(out, waitScn{kind: kind, w: w, n: 2, cancelJ: 0, d: w / 2, bound: 1, inFlow: true}.scenario())
+		}
+	}
+	// stop-on-error batches whose items are not in lock-step: an item that is mid-wait when a
+	// neighbour fails for good still waits its full time (or is not retried at all)
+	for _, w := range []time.Duration{time.Millisecond, time.Hour} {
+		for _, n := range []int{2, 3} {
+			out = append(out, waitScn{kind: -1, w: w, n: n, items: 2, c: 2, cancelJ: -1, bound: 1, stop: true, stagger: true}.scenario())
+			out = append(out, waitScn{kind: -1, w: w, n: n, items: 3, c: 3, cancelJ: -1, bound: 0, stop: true, stagger: true}.scenario())
+		}
+	}
 	// batch items, sequential and concurrent
 	for _, c := range []int{0, 2} {
 		for _, w := range []time.Duration{time.Millisecond, time.Hour} {
